@@ -139,15 +139,23 @@ Definition scase : Type := (nat * list (attr str) * list (decl str) * sobs)%type
 
 (* The input class of the open finding object-default-coarse-equals: an attribute flagged default-valued by the
    implementation (attribute.Default = declared default .Equals value) whose value is NOT the declared default,
-   both being Timespans - Timespan.Equals compares whole seconds (types/timespantype.go:424-429).  The guard
+   both being Timespans with the same whole seconds - all that Timespan.Equals compares (types/timespantype.go:424-429).  The guard
    attr_hyps_okb of the theorems excludes it (C10_coarse_equals_default_refuted); on this class the model, which
    takes the flags as data, must still predict what the implementation rebuilt (the declared default in place of
    the value), only the comparison with the original is dropped. *)
 Definition t_timespan : str := [84; 105; 109; 101; 115; 112; 97; 110]%N.   (* "Timespan" *)
+(* the serialization string of a Timespan is [-]seconds.nanoseconds (timespantype.go SerializationString): the part
+   in front of the '.' is what Timespan.Equals compares *)
+Fixpoint whole_seconds (s : str) : str :=
+  match s with
+  | [] => []
+  | c :: s' => if N.eqb c 46 then [] else c :: whole_seconds s'
+  end.
 Definition coarse_timespan (a : attr str) (d : decl str) : bool :=
   str_eqb (d_name d) (a_name a) && a_isdef a &&
   match d_default d, erase (a_val a) with
-  | Some (PRich t1 _), PRich t2 _ => str_eqb t1 t_timespan && str_eqb t2 t_timespan
+  | Some (PRich t1 p1), PRich t2 p2 =>
+      str_eqb t1 t_timespan && str_eqb t2 t_timespan && str_eqb (whole_seconds p1) (whole_seconds p2)
   | _, _ => false
   end.
 Definition coarse_class (l : list (attr str)) (ds : list (decl str)) : bool :=
